@@ -23,6 +23,12 @@ VARIANTS = {
     'on-columns-map': 'select * from int1.t1 as t join mindsdb.pred as m on t.a = m.k where {W}',
     'using': 'select * from int1.t1 as t join mindsdb.pred as m where {W} using Opt1 = 1, m.opt2 = \'x\'',
     'two-tables': 'select * from int1.t1 as t join int2.t2 as u on t.a = u.a join mindsdb.pred as m where {W}',
+    # names that collide: the table's alias is the model's real name; another table's real name is the model's alias
+    'table-alias-is-model-name': 'select * from int1.t1 as pred join mindsdb.pred as m where {W}',
+    'other-table-named-like-model-alias': 'select * from int1.t1 as t join mindsdb.pred as m join int2.m as u on u.a = t.a where {W}',
+    'other-table-named-like-table-alias': 'select * from int1.t1 as t join int2.t as u on u.a = t.a join mindsdb.pred as m where {W}',
+    'null-model-argument': 'select * from int1.t1 as t join mindsdb.pred as m where {W}',
+    'zero-model-argument': 'select * from int1.t1 as t join mindsdb.pred as m where {W}',
     'constant-first': 'select * from int1.t1 as t join mindsdb.pred as m where {WF}',
     'constant-first-two-tables': 'select * from int1.t1 as t join int2.t2 as u on t.a = u.a join mindsdb.pred as m where {WF}',
     'cte-named-like-model': 'with pred as (select a, b from int1.t3) select * from int1.t1 as t join mindsdb.pred as m where {W}',
@@ -38,6 +44,13 @@ VARIANTS = {
 }
 
 
+CUR = {'atoms': None, 'talias': 't'}      # atoms in force for the case being processed (a variant may respell one)
+
+
+def atoms():
+    return CUR['atoms'] or ATOMS
+
+
 MIRROR = {'=': '=', '>': '<', '<': '>', '>=': '<=', '<=': '>=', '!=': '!=', '<>': '<>'}
 
 
@@ -45,10 +58,12 @@ def render(w, flip=False):
     """flip: atoms on TABLE columns are written constant-first with the mirrored operator (`2 < t.a` for `t.a > 2`)."""
     k = w['k']
     if k == 'atom':
-        tab, col, op, c = ATOMS[w['id']]
+        tab, col, op, c = atoms()[w['id']]
+        cs = 'NULL' if c is None else '%d' % c
+        q = CUR['talias'] if tab == 't' else tab           # the table's alias in this variant
         if flip and tab == 't':
-            return '%d %s %s.%s' % (c, MIRROR[op], tab, col)
-        return '%s.%s %s %d' % (tab, col, op, c)
+            return '%s %s %s.%s' % (cs, MIRROR[op], q, col)
+        return '%s.%s %s %s' % (q, col, op, cs)
     if k == 'not':
         return 'not (%s)' % render(w['a'], flip)
     return '(%s %s %s)' % (render(w['a'], flip), k, render(w['b'], flip))
@@ -62,12 +77,12 @@ def match_atom(node, with_alias):
     nop = str(node.op).lower()
     if type(a).__name__ == 'Constant' and type(b).__name__ == 'Identifier' and nop in MIRROR:
         a, b, nop = b, a, MIRROR[nop]        # constant-first spelling of the same comparison
-    if type(a).__name__ != 'Identifier' or type(b).__name__ != 'Constant':
+    if type(a).__name__ != 'Identifier' or type(b).__name__ not in ('Constant', 'NullConstant'):
         return None
     parts = [str(p).lower() for p in a.parts]
-    for i, (tab, col, op, c) in ATOMS.items():
+    for i, (tab, col, op, c) in atoms().items():
         if parts[-1] == col and nop == op and b.value == c:
-            if len(parts) > 1 and parts[-2] != tab:
+            if len(parts) > 1 and parts[-2] != (CUR['talias'] if tab == 't' else tab):
                 continue
             return i
     return None
@@ -107,6 +122,13 @@ def _case(args):
     from mindsdb_sql.planner import plan_query
     from mindsdb_sql.exceptions import PlanningException
     from .project import walk_objects
+    CUR['atoms'] = dict(ATOMS)
+    CUR['talias'] = 'pred' if variant == 'table-alias-is-model-name' else 't'
+    if variant.startswith('null-model-argument'):
+        CUR['atoms'][4] = ('m', 'z', '=', None)         # m.z = NULL : the model gets the argument z = NULL
+    if variant.startswith('zero-model-argument'):
+        CUR['atoms'][4] = ('m', 'z', '=', 0)
+        CUR['atoms'][1] = ('t', 'b', '=', 0)
     sql = VARIANTS[variant].replace('{WF}', render(w, True)).replace('{W}', render(w))
     out = {'sql': sql, 'variant': variant}
     try:
@@ -170,7 +192,7 @@ def _case(args):
     rowdict, other = [], 0
     for a in applies:
         for k_, v in (a.row_dict or {}).items():
-            hit = [i for i, (tab, col, op, c) in ATOMS.items() if tab == 'm' and op == '=' and col == str(k_).lower() and c == v]
+            hit = [i for i, (tab, col, op, c) in atoms().items() if tab == 'm' and op == '=' and col == str(k_).lower() and c == v]
             if hit:
                 rowdict.append(hit[0])
             else:
